@@ -345,6 +345,11 @@ class NodeWorld:
                 return ans
             app.send_answer(ans)
             rec["answered"] += 1
+        if behaviour == "answer-then-raise":
+            # the handler has submitted its answer and fails afterwards (in its own bookkeeping, say)
+            app.send_answer(ans)
+            rec["answered"] += 1
+            raise RuntimeError("handler failure after the answer was submitted (injected by the harness)")
         return None
 
     @staticmethod
